@@ -9,7 +9,7 @@ use interchain_token::{InterchainToken, InterchainTokenClient};
 use interchain_token_service::{InterchainTokenService, InterchainTokenServiceClient};
 use serde::{Deserialize, Serialize};
 use sha2::{Digest, Sha256};
-use soroban_sdk::testutils::{Address as _, EnvTestConfig, Events as _, Ledger as _};
+use soroban_sdk::testutils::{Address as _, EnvTestConfig, Ledger as _};
 use soroban_sdk::xdr::{self, ScAddress, ScVal};
 use soroban_sdk::{Address, Bytes, BytesN, Env, IntoVal, String as SString, TryFromVal, Val, Vec as SVec};
 
@@ -78,20 +78,36 @@ pub fn snapshot_of(env: &Env, contract: &Address) -> Snap {
 
 pub type Ev = (Address, std::vec::Vec<ScVal>, ScVal);
 
+/// Contract events of successful (not rolled back) frames, in emission order.
+fn live_events(env: &Env) -> std::vec::Vec<(xdr::Hash, xdr::VecM<ScVal>, ScVal)> {
+    env.host()
+        .get_events()
+        .unwrap()
+        .0
+        .into_iter()
+        .filter(|e| !e.failed_call)
+        .filter_map(|e| match e.event {
+            xdr::ContractEvent {
+                type_: xdr::ContractEventType::Contract,
+                contract_id: Some(contract_id),
+                body: xdr::ContractEventBody::V0(xdr::ContractEventV0 { topics, data }),
+                ..
+            } => Some((contract_id, topics, data)),
+            _ => None,
+        })
+        .collect()
+}
+
 pub fn events_len(env: &Env) -> u32 {
-    env.events().all().len()
+    live_events(env).len() as u32
 }
 
 pub fn events_since(env: &Env, n: u32) -> std::vec::Vec<Ev> {
-    let all = env.events().all();
-    let mut out = vec![];
-    for i in n..all.len() {
-        let (a, topics, data) = all.get(i).unwrap();
-        let t: std::vec::Vec<ScVal> = topics.iter().map(|v| ScVal::try_from_val(env, &v).unwrap()).collect();
-        let d = ScVal::try_from_val(env, &data).unwrap();
-        out.push((a, t, d));
-    }
-    out
+    live_events(env)
+        .into_iter()
+        .skip(n as usize)
+        .map(|(c, t, d)| (Address::try_from_val(env, &ScAddress::Contract(c)).unwrap(), t.to_vec(), d))
+        .collect()
 }
 
 pub fn scv<T: IntoVal<Env, Val>>(env: &Env, v: T) -> ScVal {
@@ -493,4 +509,186 @@ pub fn register_native_token<'a>(
     let md = soroban_token_sdk::metadata::TokenMetadata { decimal: decimals, name: sstr(env, name), symbol: sstr(env, symbol) };
     let id = env.register(InterchainToken, (owner.clone(), minter, BytesN::from_array(env, &token_id), md));
     InterchainTokenClient::new(env, &id)
+}
+
+// ---------------------------------------------------------------------------------------------
+// explicit proofs (pure data), so that declared sets and signatures can be tampered with
+
+#[derive(Clone, Debug)]
+pub struct ProofData {
+    pub entries: std::vec::Vec<([u8; 32], u128, Option<[u8; 64]>)>,
+    pub threshold: u128,
+    pub nonce: [u8; 32],
+}
+
+impl ProofData {
+    pub fn honest(set: &BuiltSet, digest: &[u8; 32], mask: u32) -> ProofData {
+        ProofData {
+            entries: (0..set.len())
+                .map(|i| {
+                    let sig = if mask >> i & 1 == 1 { Some(set.sks[i].sign(digest).to_bytes()) } else { None };
+                    (set.pks[i], set.weights[i], sig)
+                })
+                .collect(),
+            threshold: set.threshold,
+            nonce: set.nonce,
+        }
+    }
+    pub fn declared_set_sv(&self) -> Sv {
+        Sv::Map(vec![
+            ("nonce".into(), Sv::Bytes(self.nonce.to_vec())),
+            (
+                "signers".into(),
+                Sv::Vec(
+                    self.entries
+                        .iter()
+                        .map(|(pk, w, _)| Sv::Map(vec![("signer".into(), Sv::Bytes(pk.to_vec())), ("weight".into(), Sv::U128(*w))]))
+                        .collect(),
+                ),
+            ),
+            ("threshold".into(), Sv::U128(self.threshold)),
+        ])
+    }
+    pub fn declared_hash(&self) -> [u8; 32] {
+        keccak256(&self.declared_set_sv().xdr())
+    }
+    pub fn to_soroban(&self, env: &Env) -> Proof {
+        let mut v = SVec::new(env);
+        for (pk, w, sig) in &self.entries {
+            v.push_back(ProofSigner {
+                signer: WeightedSigner { signer: BytesN::from_array(env, pk), weight: *w },
+                signature: match sig {
+                    Some(s) => ProofSignature::Signed(BytesN::from_array(env, s)),
+                    None => ProofSignature::Unsigned,
+                },
+            });
+        }
+        Proof { signers: v, threshold: self.threshold, nonce: BytesN::from_array(env, &self.nonce) }
+    }
+    /// (weight carried by valid signatures over `digest`, number of attached-but-invalid signatures)
+    pub fn valid_weight(&self, digest: &[u8; 32]) -> (Option<u128>, usize) {
+        use ed25519_dalek::{Signature, VerifyingKey};
+        let mut total: Option<u128> = Some(0);
+        let mut invalid = 0;
+        for (pk, w, sig) in &self.entries {
+            if let Some(s) = sig {
+                let ok = VerifyingKey::from_bytes(pk)
+                    .ok()
+                    .map(|vk| vk.verify_strict(digest, &Signature::from_bytes(s)).is_ok())
+                    .unwrap_or(false);
+                if ok {
+                    total = total.and_then(|t| t.checked_add(*w));
+                } else {
+                    invalid += 1;
+                }
+            }
+        }
+        (total, invalid)
+    }
+}
+
+/// Reference model of the gateway's signer-set bookkeeping.
+#[derive(Clone, Debug, Default)]
+pub struct SignerModel {
+    pub epoch: u64,
+    /// hash -> epoch
+    pub by_hash: std::collections::BTreeMap<[u8; 32], u64>,
+    pub retention: u64,
+}
+
+impl SignerModel {
+    pub fn install(&mut self, h: [u8; 32]) {
+        self.epoch += 1;
+        self.by_hash.insert(h, self.epoch);
+    }
+    pub fn live(&self, h: &[u8; 32]) -> bool {
+        match self.by_hash.get(h) {
+            Some(e) => self.epoch - e <= self.retention,
+            None => false,
+        }
+    }
+    pub fn is_latest(&self, h: &[u8; 32]) -> bool {
+        self.by_hash.get(h).map(|e| *e == self.epoch).unwrap_or(false)
+    }
+}
+
+impl<'a> Gw<'a> {
+    /// rotation through the real entry point; proof by `prover` (signers in `mask`) over the new set
+    pub fn rotate(&self, env: &Env, new_set: &BuiltSet, prover: &BuiltSet, mask: u32, bypass: bool) -> bool {
+        let dh = new_set.rotation_data_hash();
+        let dg = digest(&self.domain, &prover.hash(), &dh);
+        let proof = prover.proof(env, &dg, mask);
+        matches!(self.client.try_rotate_signers(&new_set.to_soroban(env), &proof, &bypass), Ok(Ok(())))
+    }
+}
+
+// ---------------------------------------------------------------------------------------------
+// generic native injection + deployment through the host's real create-contract path
+
+/// Give `addr` the native function table of contract type `T` without creating an instance:
+/// `register_at` with no constructor arguments inserts the function table, stores a bare instance
+/// and then fails in the constructor call (argument count); the bare instance is deleted again.
+/// A later `deploy_v2(empty-wasm hash, args)` at that address then runs T's current-source
+/// constructor inside a real, atomic host frame.
+pub fn inject_native<T: soroban_sdk::testutils::ContractFunctionSet + 'static>(env: &Env, addr: &Address, contract: T) {
+    if has_instance(env, addr) {
+        return;
+    }
+    let _ = crate::engine::catch(|| env.register_at(addr, contract, ()));
+    if has_instance(env, addr) {
+        delete_instance(env, addr);
+    }
+}
+
+pub struct FactoryW<'a> {
+    pub client: crate::probes::FactoryClient<'a>,
+    pub id: Address,
+}
+
+pub fn deploy_factory<'a>(env: &Env) -> FactoryW<'a> {
+    let id = env.register(crate::probes::Factory, ());
+    FactoryW { client: crate::probes::FactoryClient::new(env, &id), id }
+}
+
+impl<'a> FactoryW<'a> {
+    pub fn predicted(&self, env: &Env, salt: &[u8; 32]) -> Address {
+        env.deployer().with_address(self.id.clone(), BytesN::from_array(env, salt)).deployed_address()
+    }
+    /// deploy contract type T (native, current source) with `args`; Err = construction failed atomically
+    pub fn deploy<T: soroban_sdk::testutils::ContractFunctionSet + 'static>(
+        &self,
+        env: &Env,
+        contract: T,
+        salt: &[u8; 32],
+        args: SVec<Val>,
+    ) -> Result<Address, String> {
+        let predicted = self.predicted(env, salt);
+        inject_native(env, &predicted, contract);
+        match self.client.try_deploy(&BytesN::from_array(env, &empty_wasm_hash()), &BytesN::from_array(env, salt), &args) {
+            Ok(Ok(a)) => Ok(a),
+            e => Err(format!("{:?}", e)),
+        }
+    }
+}
+
+/// Gateway deployed through the factory (atomic construction).
+pub fn deploy_gateway_atomic<'a>(
+    env: &Env,
+    factory: &FactoryW,
+    salt: &[u8; 32],
+    domain: [u8; 32],
+    min_delay: u64,
+    retention: u64,
+    initial: &[BuiltSet],
+) -> Result<Gw<'a>, String> {
+    let owner = Address::generate(env);
+    let operator = Address::generate(env);
+    let mut sets = SVec::new(env);
+    for s in initial {
+        sets.push_back(s.to_soroban(env));
+    }
+    let dom = BytesN::from_array(env, &domain);
+    let args: SVec<Val> = (owner.clone(), operator.clone(), dom, min_delay, retention, sets).into_val(env);
+    let id = factory.deploy(env, AxelarGateway, salt, args)?;
+    Ok(Gw { client: AxelarGatewayClient::new(env, &id), id, owner, operator, domain })
 }
